@@ -52,6 +52,8 @@ def build(rng):
         n = rand_keyname(rng)
         if any(T.lower(n) == T.lower(k[0]) for k in keys):
             continue
+        if rng.random() < 0.3:
+            n = recase(rng, n)          # the CONFIGURED spelling has upper-case letters (the lookup is case-insensitive)
         keys.append((n, rng.choice(["1", "256"]), bytes(rng.randrange(256) for _ in range(rng.choice([1, 16, 32, 64, 65, 100])))))
     scen = rng.choice(["valid", "valid", "valid", "wrongkey", "unknownkey", "algmismatch", "unknownalg", "trunc", "time", "time",
                        "flip", "flip", "case"]) if keys else rng.choice(["unknownkey", "unknownalg"])
@@ -77,7 +79,10 @@ def build(rng):
     elif scen == "trunc":
         ml = rng.choice({"1": [10, 11, 19, 9, 0, 21, 32], "256": [16, 17, 31, 15, 10, 0, 33, 40]}[salg])
     elif scen == "time":
-        off = rng.choice([fudge, -fudge, fudge + 1, -fudge - 1, fudge - 1, 1 - fudge, fudge + rng.randint(1, 100000), -fudge - rng.randint(1, 100000)])
+        off = rng.choice([fudge, -fudge, fudge + 1, -fudge - 1, fudge - 1, 1 - fudge, fudge + rng.randint(1, 100000), -fudge - rng.randint(1, 100000),
+                          # a time that agrees with the server's clock only modulo 2^32 (the field has 48 bits)
+                          rng.choice([1, -1, 2, 3]) * 2**32 + rng.randint(-min(fudge, 1000), min(fudge, 1000)),
+                          rng.choice([2**32, 2**33, 2**40 - 1, -(2**31)])])
     if scen == "case" or rng.random() < 0.2:
         owner, algname = recase(rng, owner), recase(rng, algname)
     mid = rng.randrange(65536)
